@@ -38,6 +38,11 @@ def repo_hash():
     return _hash_files(paths)
 
 
+def tracer_hash():
+    """the way real traces are taken (harness/rtrace.py) is part of the cache key"""
+    return _hash_files([os.path.join(HERE, "rtrace.py")])[:8]
+
+
 def lean_hash(sub=None):
     paths = []
     for root, dirs, files in os.walk(LEAN_DIR):
@@ -161,7 +166,7 @@ def close_pool():
 
 def real_traces(inputs, use_cache=True):
     """inputs: list of (spec, nfin, k). Returns dict input -> lines."""
-    st = Store("real", repo_hash())
+    st = Store("real", repo_hash() + "-" + tracer_hash())
     todo = [x for x in dict.fromkeys(inputs) if not (use_cache and x in st.d)]
     if todo:
         # longest first for load balance
@@ -174,7 +179,7 @@ def real_traces(inputs, use_cache=True):
 
 
 def real_hists(inputs):
-    st = Store("hist", repo_hash())
+    st = Store("hist", repo_hash() + "-" + tracer_hash())
     todo = [x for x in dict.fromkeys(inputs) if x not in st.d]
     if todo:
         res = pool().map(_hist_worker, todo, chunksize=max(1, len(todo) // (NPROC * 8)))
@@ -243,7 +248,7 @@ def model_hists(inputs):
 
 def monitor(inputs, traces):
     """Run the Lean monitor over real traces. Returns dict input -> list of (idx, tag, code)."""
-    st = Store("mon", repo_hash() + "-" + model_hash())
+    st = Store("mon", repo_hash() + "-" + tracer_hash() + "-" + model_hash())
     todo = [x for x in dict.fromkeys(inputs)
             if x not in st.d and not traces[x][0].startswith(("X", "H"))]
     if todo:
